@@ -378,6 +378,20 @@ def m_update(ip, args, kwargs, node):
     return VNone
 
 
+def set_issubset(ip, args, kwargs, node):
+    """s.issubset(other) for a symbolic set against a symbolic set or the keys of a symbolic dict"""
+    s, o = args[0], args[1]
+    k = z3.Const(ip.st.fresh_name("k"), sort_of_type(s.elem))
+    mine = z3.Select(ip.st.heap[(s.ref, "set")], k)
+    if isinstance(o, VSet):
+        theirs = z3.Select(ip.st.heap[(o.ref, "set")], k)
+    elif isinstance(o, VMap):
+        theirs = z3.Select(ip.st.heap[(o.ref, "dom")], k)
+    else:
+        raise Unsupported(f"set.issubset({o!r})")
+    return VBool(z3.ForAll([k], z3.Implies(mine, theirs)))
+
+
 def set_update(ip, args, kwargs, node):
     s, o = args[0], args[1]
     if not isinstance(o, VSet):
@@ -945,6 +959,7 @@ def install(lib):  # noqa: F811
     meth[("map", "setdefault")] = VBuiltin("dict.setdefault", m_setdefault)
     meth[("map", "update")] = VBuiltin("dict.update", m_update)
     meth[("set", "update")] = VBuiltin("set.update", set_update)
+    meth[("set", "issubset")] = VBuiltin("set.issubset", set_issubset)
     meth[("map", "pop")] = VBuiltin("dict.pop", m_pop_any)
     meth[("hmap", "pop")] = VBuiltin("dict.pop", hmap_pop)
     lib["__getitem__"]["hmap"] = hmap_getitem
